@@ -67,18 +67,22 @@ package excellent
 // empty list nothing
 //@ func (s *xscanner) scanIdentifier
 //@   nopanic
-//@   havocs WriteRune, String, ToLower, Sprintf
+//@   havocs WriteRune, String, Sprintf
 //@   requires s != nil && inOK(s.input) && inputOK() && s.input.unreadCount <= 2
 //@   ensures [at_most_two_unread] inOK(s.input) && inputOK() && s.input.unreadCount <= 2
 //@   ensures [never_backwards] netPos(s.input) >= old(netPos(s.input))
 //@   ensures [nil_allows_all] s.identifierTopLevels == nil ==> result0 == IDENTIFIER
 //@   ensures [empty_allows_none] (s.identifierTopLevels != nil && len(s.identifierTopLevels) == 0) ==> result0 == BODY
+// with a list, the token is an identifier exactly when the (lower-cased) top level is literally one of the listed names -
+// nothing looser (case folding, prefixes) lets text after an '@' be taken for an expression
+//@   ensures [listed_exactly] s.identifierTopLevels != nil ==> (result0 == IDENTIFIER <==> (exists k int :: 0 <= k && k < len(s.identifierTopLevels) && s.identifierTopLevels[k] == local(topLevel)))
 // at each loop head one rune has just been read: at most one is left unread
 //@ loop 1
 //@   invariant inOK(s.input) && inputOK() && s.input.unreadCount <= 1
 //@   invariant netPos(s.input) >= old(netPos(s.input)) + (ch != eof ? 1 : 0)
 //@ loop 2
 //@   invariant inOK(s.input) && inputOK() && s.input.unreadCount <= 2 && netPos(s.input) >= old(netPos(s.input))
+//@   invariant forall j int :: (0 <= j && j <= $i) ==> s.identifierTopLevels[j] != topLevel
 
 // scanExpression (called right after "@(", nothing unread): never leaves anything unread; a text literal inside is skipped by
 // readTextLiteral, so parentheses are only counted outside literals
